@@ -33,6 +33,9 @@ func c10Monitor(rep *Report, c *L1Case) {
 	}
 	created := map[uint64]bool{}
 	pairs := map[uint64]map[string]string{}
+	usedSeq := map[uint64]map[uint64]bool{}   // sequences returned by accepted deposits, per bridge
+	usedEvSeq := map[uint64]map[uint64]bool{} // sequences announced by events, per bridge
+	side := l1Sides[c]
 	prev := viewL1(c.Obs[0])
 	for bi, b := range tr.Bridges {
 		if !bridgeBlank(prev.Bridge(bi)) {
@@ -44,42 +47,100 @@ func c10Monitor(rep *Report, c *L1Case) {
 		v := viewL1(c.Obs[i])
 		ok := v.OK()
 		evs := v.Events()
+		// the accepted deposits of this step: the op itself and - monitor-only - a deposit submitted
+		// from inside its bank transfer (the outer one took its sequence first)
+		type accDep struct {
+			op     L1Op
+			seq    uint64
+			has    bool
+			nested bool
+		}
+		var deps []accDep
 		if o.Kind == "deposit" && ok {
-			b := o.Bridge
-			if !created[b] {
-				l1Violate(rep, c, i, "C10:deposit-to-nonexistent-bridge", fmt.Sprintf("a deposit to bridge id %d, which was never created, was accepted", b))
-			}
 			seq, has := v.RespN()
-			if !has || seq != exp(b) {
-				l1Violate(rep, c, i, "C10:response-sequence", fmt.Sprintf("deposit into bridge %d returned sequence %d, expected %d", b, seq, exp(b)))
-			}
-			if len(evs) != 1 {
-				l1Violate(rep, c, i, "C10:event-count", fmt.Sprintf("accepted deposit emitted %d initiate_token_deposit events", len(evs)))
-			} else {
-				f := evs[0].(OL).V
-				want := []Ov{onU(b), onU(exp(b)), OB{[]byte(o.Sender)}, OB{[]byte(o.To)}, OB{[]byte(o.Denom)},
-					OB{[]byte(l2DenomIndep(b, o.Denom))}, ozB(o.Amt), OB{o.Data}}
-				names := []string{"bridge_id", "l1_sequence", "from", "to", "l1_denom", "l2_denom", "amount", "data"}
-				for k := range want {
-					if normOv(f[k]) != normOv(want[k]) {
-						l1Violate(rep, c, i, "C10:event-field", fmt.Sprintf("event attribute %s differs from the request (bridge %d sequence %d)", names[k], b, exp(b)))
+			deps = append(deps, accDep{o, seq, has, false})
+			if side != nil {
+				if nd := side.nestedDep[i]; nd != nil {
+					rep.Hist(fmt.Sprintf("nested-deposit:reached=%v,accepted=%v", nd.Reached, nd.OK))
+					if nd.OK {
+						deps = append(deps, accDep{nd.Op, nd.Seq, true, true})
 					}
 				}
 			}
-			// exactly the announced coin moved from the sender to the escrow of b
-			sd := c.idOf(o.Sender)
-			for ai, a := range tr.Accts {
-				for di, d := range tr.Denoms {
-					delta := new(big.Int).Sub(v.Bal(tr, ai, di), prev.Bal(tr, ai, di))
-					want := big.NewInt(0)
-					if d == o.Denom && a == EscrowBase+b {
-						want.Add(want, o.Amt)
+		}
+		matched := make([]bool, len(evs))
+		wantDelta := map[[2]int]*big.Int{}
+		for _, d := range deps {
+			b := d.op.Bridge
+			kind := "deposit"
+			if d.nested {
+				kind = "nested deposit"
+			}
+			if !created[b] {
+				l1Violate(rep, c, i, "C10:deposit-to-nonexistent-bridge", fmt.Sprintf("a %s to bridge id %d, which was never created, was accepted", kind, b))
+			}
+			if usedSeq[b] == nil {
+				usedSeq[b] = map[uint64]bool{}
+			}
+			if d.has && usedSeq[b][d.seq] {
+				l1Violate(rep, c, i, "C10:sequence-reused", fmt.Sprintf("%s into bridge %d returned sequence %d, which an earlier accepted deposit of that bridge already carries", kind, b, d.seq))
+			} else if !d.has || d.seq != exp(b) {
+				l1Violate(rep, c, i, "C10:response-sequence", fmt.Sprintf("%s into bridge %d returned sequence %d, expected %d", kind, b, d.seq, exp(b)))
+			}
+			usedSeq[b][d.seq] = true
+			// exactly one event repeating this request with the expected sequence
+			want := []Ov{onU(b), onU(exp(b)), OB{[]byte(d.op.Sender)}, OB{[]byte(d.op.To)}, OB{[]byte(d.op.Denom)},
+				OB{[]byte(l2DenomIndep(b, d.op.Denom))}, ozB(d.op.Amt), OB{d.op.Data}}
+			names := []string{"bridge_id", "l1_sequence", "from", "to", "l1_denom", "l2_denom", "amount", "data"}
+			best, bestDiff := -1, 99
+			for k, ev := range evs {
+				if matched[k] {
+					continue
+				}
+				f := ev.(OL).V
+				diff := 0
+				for x := range want {
+					if normOv(f[x]) != normOv(want[x]) {
+						diff++
 					}
-					if d == o.Denom && a == sd {
-						want.Sub(want, o.Amt)
+				}
+				if diff < bestDiff {
+					best, bestDiff = k, diff
+				}
+			}
+			if best < 0 {
+				l1Violate(rep, c, i, "C10:event-count", fmt.Sprintf("accepted %s has no initiate_token_deposit event (%d events for %d accepted deposits)", kind, len(evs), len(deps)))
+			} else {
+				matched[best] = true
+				f := evs[best].(OL).V
+				for x := range want {
+					if normOv(f[x]) != normOv(want[x]) {
+						if names[x] == "l1_sequence" && usedEvSeq[b][f[x].(ON).V.Uint64()] {
+							l1Violate(rep, c, i, "C10:sequence-reused", fmt.Sprintf("the event of the %s into bridge %d announces sequence %s, which an earlier event of that bridge already carries", kind, b, f[x].(ON).V))
+						} else {
+							l1Violate(rep, c, i, "C10:event-field", fmt.Sprintf("event attribute %s differs from the request (bridge %d sequence %d)", names[x], b, exp(b)))
+						}
 					}
-					if delta.Cmp(want) != 0 {
-						l1Violate(rep, c, i, "C10:moved-amount", fmt.Sprintf("deposit of %s%s into bridge %d changed the balance of account %d in %s by %s, expected %s", o.Amt, o.Denom, b, a, d, delta, want))
+				}
+				if usedEvSeq[b] == nil {
+					usedEvSeq[b] = map[uint64]bool{}
+				}
+				usedEvSeq[b][f[1].(ON).V.Uint64()] = true
+			}
+			// the announced coin moves from the sender to the escrow of b
+			sd := c.idOf(d.op.Sender)
+			if di := idxS(tr.Denoms, d.op.Denom); di >= 0 {
+				for _, a := range [][2]uint64{{EscrowBase + b, 1}, {sd, 0}} {
+					if ai := idxU(tr.Accts, a[0]); ai >= 0 {
+						key := [2]int{ai, di}
+						if wantDelta[key] == nil {
+							wantDelta[key] = new(big.Int)
+						}
+						if a[1] == 1 {
+							wantDelta[key].Add(wantDelta[key], d.op.Amt)
+						} else {
+							wantDelta[key].Sub(wantDelta[key], d.op.Amt)
+						}
 					}
 				}
 			}
@@ -87,12 +148,27 @@ func c10Monitor(rep *Report, c *L1Case) {
 			if pairs[b] == nil {
 				pairs[b] = map[string]string{}
 			}
-			l2 := l2DenomIndep(b, o.Denom)
+			l2 := l2DenomIndep(b, d.op.Denom)
 			if _, has := pairs[b][l2]; !has {
-				pairs[b][l2] = o.Denom
+				pairs[b][l2] = d.op.Denom
 			}
-		} else if len(evs) != 0 {
-			l1Violate(rep, c, i, "C10:event-count", fmt.Sprintf("%d initiate_token_deposit events without an accepted deposit", len(evs)))
+		}
+		if len(evs) != len(deps) {
+			l1Violate(rep, c, i, "C10:event-count", fmt.Sprintf("%d initiate_token_deposit events for %d accepted deposits", len(evs), len(deps)))
+		}
+		if len(deps) > 0 {
+			for ai, a := range tr.Accts {
+				for di, d := range tr.Denoms {
+					delta := new(big.Int).Sub(v.Bal(tr, ai, di), prev.Bal(tr, ai, di))
+					want := wantDelta[[2]int{ai, di}]
+					if want == nil {
+						want = big.NewInt(0)
+					}
+					if delta.Cmp(want) != 0 {
+						l1Violate(rep, c, i, "C10:moved-amount", fmt.Sprintf("deposit of %s%s into bridge %d changed the balance of account %d in %s by %s, expected %s", o.Amt, o.Denom, o.Bridge, a, d, delta, want))
+					}
+				}
+			}
 		}
 		if o.Kind == "create" && ok {
 			id, _ := v.RespN()
@@ -204,6 +280,53 @@ func c10Script(sc *L1Scenario, tier int) {
 	}
 }
 
+// scripted, monitor-only for the nested calls: deposits submitted from inside another deposit's
+// sender -> escrow transfer (same bridge and another bridge), between ordinary deposits
+func c10ReentryScript(sc *L1Scenario, tier int) {
+	e, r := sc.Env, sc.R
+	var bs []uint64
+	for k := 0; k < 2+r.Intn(2); k++ {
+		if b, ok := sc.CreateStd(uint64(1+r.Intn(7)), uint64(1+r.Intn(7)), sc.Periods[r.Intn(len(sc.Periods))]); ok {
+			bs = append(bs, b)
+		}
+	}
+	if len(bs) == 0 {
+		return
+	}
+	n := 16
+	if tier == 1 {
+		n = 40
+	}
+	dep := func(b uint64) L1Op {
+		amt := int64(1 + r.Intn(200))
+		if r.Chance(10) {
+			amt = 0
+		}
+		var data []byte
+		if r.Chance(30) {
+			data = r.Bytes(1 + r.Intn(8))
+		}
+		return L1Op{Kind: "deposit", Sender: e.User(uint64(1 + r.Intn(7))).Str, Bridge: b, To: "l2recipient", Denom: sc.Denoms[r.Intn(len(sc.Denoms))], Amt: big.NewInt(amt), Data: data}
+	}
+	for i := 0; i < n; i++ {
+		b := bs[r.Intn(len(bs))]
+		if r.Chance(45) {
+			o := dep(b)
+			sc.reg(o.Sender)
+			sc.do(o)
+			continue
+		}
+		nb := b // nested: mostly the same bridge, sometimes another one or one that does not exist
+		switch r.Intn(6) {
+		case 0:
+			nb = bs[r.Intn(len(bs))]
+		case 1:
+			nb = uint64(len(bs) + 1)
+		}
+		sc.DepositReentrant(dep(b), dep(nb))
+	}
+}
+
 func widen5(tr *L1Track) {
 	tr.Bridges = []uint64{1, 2, 3, 4, 5}
 	tr.Accts = append(tr.Accts, EscrowBase+5)
@@ -213,7 +336,7 @@ func genC10(seed uint64, tier, outdir string) *Report {
 	w := DefaultL1Weights
 	w.Create, w.Deposit, w.Propose, w.Claim, w.Send = 10, 50, 6, 8, 6
 	return runMoneyStream(MoneyStream{Prop: "C10", Weights: w, NRandom: [2]int{24, 250}, Len: [2]int{60, 120},
-		Scripts: []func(*L1Scenario, int){c10Script}, NScript: [2]int{24, 200}, Widen: widen5,
+		Scripts: []func(*L1Scenario, int){c10Script, c10ReentryScript}, NScript: [2]int{16, 150}, Widen: widen5,
 		Monitors: []L1Monitor{c10Monitor}, Prep: longDenomPrep, Spice: (*L1Scenario).discardStep, SpicePct: 5,
 		Rule: "a case is one L1 history on a fresh instance (scripted creation/deposit interleaving over ids 1-5 plus random tail, or fully random); distinct by hash of the op list; non-trivial = at least one deposit accepted and at least one rejected"},
 		seed, tier, outdir)
